@@ -245,7 +245,7 @@ func enumerate(c *ev.Check, base cfg, L int, first int) {
 
 // ------------------------------------------------------------------ engine A
 
-type obsA struct{ admitted, after int }
+type obsA struct{ admitted, after, idle int }
 
 func harnessA(c *ev.Check, name string, base cfg, threads, each int, reconf *cfg, bound, shards int) xa.Harness {
 	body := func() interface{} {
@@ -281,12 +281,22 @@ func harnessA(c *ev.Check, name string, base cfg, threads, each int, reconf *cfg
 			})
 		}
 		vsched.Join()
+		if reconf == nil {
+			// never stricter, afterwards: the concurrent calls (more than the burst, so some were refused while others
+			// ran) emptied the bucket; two refill periods later exactly min(burst, 2) of `burst` sequential calls fit
+			vtime.Advance(time.Duration(2 * float64(time.Second) / float64(base.qps)))
+			for i := 0; i < int(base.burst); i++ {
+				if lim.GetOrDefault("s").TryAcquire() {
+					o.idle++
+				}
+			}
+		}
 		vsched.Passthrough(func() { lim.Sync(proxyv1alpha1.FlowControl{}); cancel() })
 		return o
 	}
 	check := func(x *vsched.Exec) error {
 		o := x.Obs.(*obsA)
-		c.Outcome("concurrent_outcomes", fmt.Sprint(name, o.admitted, o.after))
+		c.Outcome("concurrent_outcomes", fmt.Sprint(name, o.admitted, o.after, o.idle))
 		if reconf == nil {
 			if o.admitted > int(base.burst) {
 				return fmt.Errorf("over-rate-concurrent: burst %d at a frozen clock but %d concurrent requests were admitted", base.burst, o.admitted)
@@ -297,6 +307,18 @@ func harnessA(c *ev.Check, name string, base cfg, threads, each int, reconf *cfg
 			}
 			if o.admitted < want {
 				return fmt.Errorf("too-strict-concurrent: burst %d, %d requests arrived at a frozen clock on a full bucket and only %d were admitted", base.burst, threads*each, o.admitted)
+			}
+			if threads*each >= int(base.burst) {
+				wantIdle := 2
+				if int(base.burst) < wantIdle {
+					wantIdle = int(base.burst)
+				}
+				if o.idle < wantIdle {
+					return fmt.Errorf("too-strict-after-concurrent-refusals: %d/s burst %d: %d concurrent requests emptied the bucket (some refused); two refill periods later only %d of %d sequential requests were admitted (%d tokens had accrued)", base.qps, base.burst, threads*each, o.idle, base.burst, wantIdle)
+				}
+				if o.idle > wantIdle {
+					return fmt.Errorf("over-rate-concurrent: two refill periods after the bucket was emptied %d requests were admitted (%d tokens had accrued)", o.idle, wantIdle)
+				}
 			}
 			return nil
 		}
